@@ -1,3 +1,441 @@
 package sym
 
-func (e *Engine) registerJSON() {}
+import (
+	"fmt"
+	"go/types"
+
+	"gosym/smt"
+
+	"golang.org/x/tools/go/ssa"
+)
+
+type readerState struct {
+	S        StrV
+	Consumed bool
+}
+
+func (p *Path) mkReader(s StrV) IfaceV {
+	st := &readerState{S: s}
+	var obj *NativeObj
+	obj = &NativeObj{Kind: "reader", Data: st, Call: func(p *Path, m string, a []Value, site ssa.Instruction) Value {
+		switch m {
+		case "Close":
+			return IfaceV{}
+		case "Len":
+			return IntV{T: st.S.LenTerm(), Small: true}
+		}
+		p.unsupported("reader method %s (only bulk reads are modelled)", m)
+		return nil
+	}}
+	t := p.E.namedType("io", "ReadCloser")
+	if t == nil {
+		p.unsupported("io package not loaded")
+	}
+	return IfaceV{T: t, V: obj}
+}
+
+// readAll returns the remaining content of a reader value.
+func (p *Path) readAll(r Value, site ssa.Instruction) StrV {
+	iv, ok := r.(IfaceV)
+	if !ok || iv.T == nil {
+		p.goPanicAt(site, "read from nil reader")
+	}
+	switch x := iv.V.(type) {
+	case *NativeObj:
+		if st, ok := x.Data.(*readerState); ok {
+			if st.Consumed {
+				return StrV{}
+			}
+			st.Consumed = true
+			return st.S
+		}
+	case PtrV:
+		if typeFullName(derefType(iv.T)) == "bytes.Buffer" {
+			sv := p.load(x, site).(StructV)
+			s := p.bytesAsStr(sv.F[0])
+			p.store(x, StructV{F: append([]Value{BytesV{S: StrV{}}}, sv.F[1:]...)}, site)
+			return s
+		}
+	}
+	p.unsupported("read from %s", iv.T)
+	return StrV{}
+}
+
+func derefType(t types.Type) types.Type {
+	if pt, ok := t.Underlying().(*types.Pointer); ok {
+		return pt.Elem()
+	}
+	return t
+}
+
+func (e *Engine) registerJSON() {
+	I := e.intrinsics
+	I["encoding/json.Marshal"] = func(p *Path, a []Value, site ssa.Instruction) Value {
+		j, errv := p.jsonEncode(a[0], nil, site)
+		if errv != nil {
+			return TupleV{E: []Value{BytesV{Nil: true}, errv}}
+		}
+		return TupleV{E: []Value{BytesV{S: p.jsonRope(j)}, IfaceV{}}}
+	}
+	I["encoding/json.Valid"] = func(p *Path, a []Value, site ssa.Instruction) Value {
+		j, _ := p.parseJSON(p.bytesAsStr(a[0]), site)
+		return mkBool(j != nil)
+	}
+	unmarshal := func(p *Path, data StrV, target Value, site ssa.Instruction) Value {
+		j, why := p.parseJSON(data, site)
+		if j == nil {
+			return p.mkErr(constStr("invalid JSON: "+why), nil)
+		}
+		iv, ok := target.(IfaceV)
+		if !ok || iv.T == nil {
+			return p.mkErr(constStr("json: Unmarshal(nil)"), nil)
+		}
+		ptr, ok := iv.V.(PtrV)
+		pt, isP := iv.T.Underlying().(*types.Pointer)
+		if !ok || !isP || ptr.Obj == nil {
+			return p.mkErr(constStr("json: Unmarshal(non-pointer)"), nil)
+		}
+		if errv := p.jsonDecode(j, ptr, pt.Elem(), site); errv != nil {
+			return errv
+		}
+		return IfaceV{}
+	}
+	I["encoding/json.Unmarshal"] = func(p *Path, a []Value, site ssa.Instruction) Value {
+		return unmarshal(p, p.bytesAsStr(a[0]), a[1], site)
+	}
+	I["encoding/json.NewEncoder"] = func(p *Path, a []Value, site ssa.Instruction) Value {
+		t := p.E.namedType("encoding/json", "Encoder")
+		o := p.newObj(t, StructV{})
+		p.side[fmt.Sprintf("enc:%d", o.ID)] = a[0]
+		return PtrV{Obj: o, Type: types.NewPointer(t)}
+	}
+	I["(*encoding/json.Encoder).Encode"] = func(p *Path, a []Value, site ssa.Instruction) Value {
+		w := p.side[fmt.Sprintf("enc:%d", a[0].(PtrV).Obj.ID)]
+		j, errv := p.jsonEncode(a[1], nil, site)
+		if errv != nil {
+			return errv
+		}
+		r := p.invokeByName(w, "Write", []Value{BytesV{S: strConcat(p.jsonRope(j), constStr("\n"))}}, site)
+		if tv, ok := r.(TupleV); ok {
+			if e, _ := tv.E[1].(IfaceV); e.T != nil {
+				return e
+			}
+		}
+		return IfaceV{}
+	}
+	nop := func(p *Path, a []Value, site ssa.Instruction) Value { return nil }
+	I["(*encoding/json.Encoder).SetEscapeHTML"] = nop
+	I["(*encoding/json.Encoder).SetIndent"] = nop
+	I["(*encoding/json.Decoder).DisallowUnknownFields"] = nop
+	I["(*encoding/json.Decoder).UseNumber"] = nop
+	I["encoding/json.NewDecoder"] = func(p *Path, a []Value, site ssa.Instruction) Value {
+		t := p.E.namedType("encoding/json", "Decoder")
+		o := p.newObj(t, StructV{})
+		p.side[fmt.Sprintf("dec:%d", o.ID)] = a[0]
+		return PtrV{Obj: o, Type: types.NewPointer(t)}
+	}
+	I["(*encoding/json.Decoder).Decode"] = func(p *Path, a []Value, site ssa.Instruction) Value {
+		r := p.side[fmt.Sprintf("dec:%d", a[0].(PtrV).Obj.ID)]
+		data := p.readAll(r, site)
+		if p.branch(smt.Eq(data.LenTerm(), smt.Int(0))) {
+			return p.sentinelErr("io.EOF")
+		}
+		return unmarshal(p, data, a[1], site)
+	}
+	I["(encoding/json.RawMessage).MarshalJSON"] = func(p *Path, a []Value, site ssa.Instruction) Value {
+		if isNilValue(a[0]) {
+			return TupleV{E: []Value{BytesV{S: constStr("null")}, IfaceV{}}}
+		}
+		return TupleV{E: []Value{a[0], IfaceV{}}}
+	}
+	I["(*encoding/json.RawMessage).UnmarshalJSON"] = func(p *Path, a []Value, site ssa.Instruction) Value {
+		p.store(a[0], BytesV{S: p.bytesAsStr(a[1])}, site)
+		return IfaceV{}
+	}
+
+	// ---- readers / writers
+	I["strings.NewReader"] = func(p *Path, a []Value, site ssa.Instruction) Value {
+		return p.mkReader(a[0].(StrV)).V
+	}
+	I["bytes.NewReader"] = func(p *Path, a []Value, site ssa.Instruction) Value {
+		return p.mkReader(p.bytesAsStr(a[0])).V
+	}
+	I["bytes.NewBufferString"] = func(p *Path, a []Value, site ssa.Instruction) Value {
+		return p.mkReader(a[0].(StrV)).V
+	}
+	I["bytes.NewBuffer"] = func(p *Path, a []Value, site ssa.Instruction) Value {
+		return p.mkReader(p.bytesAsStr(a[0])).V
+	}
+	I["io.NopCloser"] = func(p *Path, a []Value, site ssa.Instruction) Value {
+		iv := a[0].(IfaceV)
+		if n, ok := iv.V.(*NativeObj); ok {
+			return IfaceV{T: p.E.namedType("io", "ReadCloser"), V: n}
+		}
+		p.unsupported("io.NopCloser of %s", iv.T)
+		return nil
+	}
+	I["io.ReadAll"] = func(p *Path, a []Value, site ssa.Instruction) Value {
+		return TupleV{E: []Value{BytesV{S: p.readAll(a[0], site)}, IfaceV{}}}
+	}
+	I["io/ioutil.ReadAll"] = I["io.ReadAll"]
+	I["io.Copy"] = func(p *Path, a []Value, site ssa.Instruction) Value {
+		data := p.readAll(a[1], site)
+		r := p.invokeByName(a[0], "Write", []Value{BytesV{S: data}}, site)
+		if tv, ok := r.(TupleV); ok {
+			if e, _ := tv.E[1].(IfaceV); e.T != nil {
+				return TupleV{E: []Value{mkInt(0), e}}
+			}
+		}
+		return TupleV{E: []Value{IntV{T: data.LenTerm(), Small: true}, IfaceV{}}}
+	}
+	I["io.WriteString"] = func(p *Path, a []Value, site ssa.Instruction) Value {
+		return p.invokeByName(a[0], "Write", []Value{BytesV{S: a[1].(StrV)}}, site)
+	}
+	bufWrite := func(p *Path, ptr Value, s StrV, site ssa.Instruction) {
+		sv := p.load(ptr, site).(StructV)
+		cur := StrV{}
+		if b, ok := sv.F[0].(BytesV); ok {
+			cur = b.S
+		}
+		fs := append([]Value{BytesV{S: strConcat(cur, s)}}, sv.F[1:]...)
+		p.store(ptr, StructV{F: fs}, site)
+	}
+	bufContent := func(p *Path, ptr Value, site ssa.Instruction) StrV {
+		sv := p.load(ptr, site).(StructV)
+		if b, ok := sv.F[0].(BytesV); ok {
+			return b.S
+		}
+		return StrV{}
+	}
+	I["(*bytes.Buffer).Write"] = func(p *Path, a []Value, site ssa.Instruction) Value {
+		s := p.bytesAsStr(a[1])
+		bufWrite(p, a[0], s, site)
+		return TupleV{E: []Value{IntV{T: s.LenTerm(), Small: true}, IfaceV{}}}
+	}
+	I["(*bytes.Buffer).WriteString"] = func(p *Path, a []Value, site ssa.Instruction) Value {
+		s := a[1].(StrV)
+		bufWrite(p, a[0], s, site)
+		return TupleV{E: []Value{IntV{T: s.LenTerm(), Small: true}, IfaceV{}}}
+	}
+	I["(*bytes.Buffer).WriteByte"] = func(p *Path, a []Value, site ssa.Instruction) Value {
+		bufWrite(p, a[0], bytesToStr([]*smt.Term{a[1].(IntV).T}), site)
+		return IfaceV{}
+	}
+	I["(*bytes.Buffer).WriteRune"] = func(p *Path, a []Value, site ssa.Instruction) Value {
+		r := p.asciiRune(a[1], site)
+		bufWrite(p, a[0], bytesToStr([]*smt.Term{r}), site)
+		return TupleV{E: []Value{mkInt(1), IfaceV{}}}
+	}
+	I["(*bytes.Buffer).Bytes"] = func(p *Path, a []Value, site ssa.Instruction) Value {
+		return BytesV{S: bufContent(p, a[0], site)}
+	}
+	I["(*bytes.Buffer).String"] = func(p *Path, a []Value, site ssa.Instruction) Value {
+		if a[0].(PtrV).Obj == nil {
+			return constStr("<nil>")
+		}
+		return bufContent(p, a[0], site)
+	}
+	I["(*bytes.Buffer).Len"] = func(p *Path, a []Value, site ssa.Instruction) Value {
+		return IntV{T: bufContent(p, a[0], site).LenTerm(), Small: true}
+	}
+	I["(*bytes.Buffer).Reset"] = func(p *Path, a []Value, site ssa.Instruction) Value {
+		sv := p.load(a[0], site).(StructV)
+		p.store(a[0], StructV{F: append([]Value{BytesV{S: StrV{}}}, sv.F[1:]...)}, site)
+		return nil
+	}
+	I["(*strings.Builder).WriteString"] = func(p *Path, a []Value, site ssa.Instruction) Value {
+		s := a[1].(StrV)
+		sv := p.load(a[0], site).(StructV)
+		cur := StrV{}
+		if b, ok := sv.F[1].(BytesV); ok {
+			cur = b.S
+		}
+		fs := append([]Value{}, sv.F...)
+		fs[1] = BytesV{S: strConcat(cur, s)}
+		p.store(a[0], StructV{F: fs}, site)
+		return TupleV{E: []Value{IntV{T: s.LenTerm(), Small: true}, IfaceV{}}}
+	}
+	I["(*strings.Builder).String"] = func(p *Path, a []Value, site ssa.Instruction) Value {
+		sv := p.load(a[0], site).(StructV)
+		if b, ok := sv.F[1].(BytesV); ok {
+			return b.S
+		}
+		return StrV{}
+	}
+
+	// ---- vrt JSON vocabulary (harness-side inspection / document construction)
+	jOf := func(p *Path, v Value) *JV {
+		sv, ok := v.(StructV)
+		if ok && len(sv.F) > 0 {
+			if jv, ok := sv.F[0].(JVal); ok {
+				return jv.J
+			}
+		}
+		p.unsupported("vrt.JSON value without payload (%T)", v)
+		return nil
+	}
+	mkJ := func(j *JV, ok bool) Value { return StructV{F: []Value{JVal{J: j}, mkBool(ok)}} }
+	I["vrt.ParseJSON"] = func(p *Path, a []Value, site ssa.Instruction) Value {
+		j, _ := p.parseJSON(p.bytesAsStr(a[0]), site)
+		if j == nil {
+			return TupleV{E: []Value{mkJ(jNull(), false), mkBool(false)}}
+		}
+		return TupleV{E: []Value{mkJ(j, true), mkBool(true)}}
+	}
+	I["(vrt.JSON).Kind"] = func(p *Path, a []Value, site ssa.Instruction) Value {
+		j := p.resolveSym(jOf(p, a[0]))
+		return mkInt(int64(j.Kind))
+	}
+	I["(vrt.JSON).IsInt"] = func(p *Path, a []Value, site ssa.Instruction) Value {
+		j := p.resolveSym(jOf(p, a[0]))
+		return mkBool(j.Kind == JNum && j.IsInt)
+	}
+	I["(vrt.JSON).Len"] = func(p *Path, a []Value, site ssa.Instruction) Value {
+		j := jOf(p, a[0])
+		if j.Kind == JObj {
+			return mkInt(int64(len(j.Keys)))
+		}
+		return mkInt(int64(len(j.Elems)))
+	}
+	I["(vrt.JSON).Index"] = func(p *Path, a []Value, site ssa.Instruction) Value {
+		j := jOf(p, a[0])
+		i := p.constIntArg(a[1], "vrt.JSON.Index")
+		if j.Kind == JObj {
+			return mkJ(j.Vals[i], true)
+		}
+		return mkJ(j.Elems[i], true)
+	}
+	I["(vrt.JSON).Key"] = func(p *Path, a []Value, site ssa.Instruction) Value {
+		j := jOf(p, a[0])
+		return j.Keys[p.constIntArg(a[1], "vrt.JSON.Key")]
+	}
+	I["(vrt.JSON).Get"] = func(p *Path, a []Value, site ssa.Instruction) Value {
+		j := jOf(p, a[0])
+		k := a[1].(StrV)
+		// last duplicate wins (as encoding/json)
+		for i := len(j.Keys) - 1; i >= 0; i-- {
+			if p.branch(p.strEq(j.Keys[i], k)) {
+				return TupleV{E: []Value{mkJ(j.Vals[i], true), mkBool(true)}}
+			}
+		}
+		return TupleV{E: []Value{mkJ(jNull(), false), mkBool(false)}}
+	}
+	I["(vrt.JSON).Str"] = func(p *Path, a []Value, site ssa.Instruction) Value { return jOf(p, a[0]).S }
+	I["(vrt.JSON).Int"] = func(p *Path, a []Value, site ssa.Instruction) Value {
+		j := jOf(p, a[0])
+		if j.I == nil {
+			return mkInt(0)
+		}
+		return IntV{T: j.I}
+	}
+	I["(vrt.JSON).Bool"] = func(p *Path, a []Value, site ssa.Instruction) Value {
+		j := jOf(p, a[0])
+		if j.B == nil {
+			return mkBool(false)
+		}
+		return BoolV{T: j.B}
+	}
+	I["(vrt.JSON).IsDateTime"] = func(p *Path, a []Value, site ssa.Instruction) Value {
+		j := jOf(p, a[0])
+		if j.Kind != JStr {
+			return mkBool(false)
+		}
+		if j.S.IsConst() {
+			r := p.E.intrinsics["time.Parse"](p, []Value{constStr("2006-01-02T15:04:05Z07:00"), j.S}, site).(TupleV)
+			return mkBool(r.E[1].(IfaceV).T == nil)
+		}
+		if len(j.S.A) == 1 && j.S.A[0].Prov != nil && j.S.A[0].Prov.Fn == "TimeFormat_"+rfc3339NanoID {
+			return mkBool(true)
+		}
+		return mkBool(false)
+	}
+	I["(vrt.JSON).Equal"] = func(p *Path, a []Value, site ssa.Instruction) Value {
+		return BoolV{T: p.jvEq(jOf(p, a[0]), jOf(p, a[1]))}
+	}
+	// vrt.JSONAny(name): the serialisation of an arbitrary scalar-or-empty JSON value
+	I["vrt.JSONAny"] = func(p *Path, a []Value, site ssa.Instruction) Value {
+		name := p.inputName(p.constStrArg(a[0], "vrt.JSONAny name"))
+		k := p.freshNamed("i_"+name+".kind", smt.SInt)
+		p.assert(smt.And(smt.Ge(k, smt.Int(0)), smt.Le(k, smt.Int(6))))
+		p.inputs = append(p.inputs, &Input{Name: name + ".kind", Kind: "int", T: k})
+		b := p.freshNamed("b_"+name+".bool", smt.SBool)
+		p.inputs = append(p.inputs, &Input{Name: name + ".bool", Kind: "bool", T: b})
+		i := p.freshNamed("i_"+name+".int", smt.SInt)
+		p.assert(smt.And(smt.Ge(i, smt.Neg(smt.BigInt(pow2(63)))), smt.Lt(i, smt.BigInt(pow2(63)))))
+		p.inputs = append(p.inputs, &Input{Name: name + ".int", Kind: "int", T: i})
+		s := p.freshStr("s_"+name+".str", 6)
+		p.inputs = append(p.inputs, &Input{Name: name + ".str", Kind: "string", Arr: s.A[0].Arr, Len: s.A[0].Len, Max: 6})
+		j := &JV{Kind: JSym, K: k, SymB: b, SymI: i, SymS: s, Name: name}
+		return p.jsonRope(j)
+	}
+	I["vrt.JSONString"] = func(p *Path, a []Value, site ssa.Instruction) Value {
+		return p.jsonRope(&JV{Kind: JStr, S: a[0].(StrV)})
+	}
+	I["vrt.JSONInt"] = func(p *Path, a []Value, site ssa.Instruction) Value {
+		return p.jsonRope(&JV{Kind: JNum, IsInt: true, I: a[0].(IntV).T})
+	}
+}
+
+// jvEq: structural equality of two JSON trees as a Bool term (object member
+// order ignored for constant keys).
+func (p *Path) jvEq(a, b *JV) *smt.Term {
+	if a.Kind == JSym || b.Kind == JSym {
+		if a == b {
+			return smt.True
+		}
+		a, b = p.resolveSym(a), p.resolveSym(b)
+	}
+	if a.Kind != b.Kind {
+		return smt.False
+	}
+	switch a.Kind {
+	case JNull:
+		return smt.True
+	case JBool:
+		return smt.Eq(a.B, b.B)
+	case JStr:
+		return p.strEq(a.S, b.S)
+	case JNum:
+		if a.IsInt != b.IsInt {
+			return smt.False
+		}
+		if a.IsInt {
+			return smt.Eq(a.I, b.I)
+		}
+		return p.valEq(a.F, b.F)
+	case JArr:
+		if len(a.Elems) != len(b.Elems) {
+			return smt.False
+		}
+		t := smt.True
+		for i := range a.Elems {
+			t = smt.And(t, p.jvEq(a.Elems[i], b.Elems[i]))
+		}
+		return t
+	case JObj:
+		if len(a.Keys) != len(b.Keys) {
+			return smt.False
+		}
+		t := smt.True
+		used := make([]bool, len(b.Keys))
+		for i, k := range a.Keys {
+			found := false
+			for j2, k2 := range b.Keys {
+				if used[j2] {
+					continue
+				}
+				if p.branch(p.strEq(k, k2)) {
+					used[j2] = true
+					found = true
+					t = smt.And(t, p.jvEq(a.Vals[i], b.Vals[j2]))
+					break
+				}
+			}
+			if !found {
+				return smt.False
+			}
+		}
+		return t
+	}
+	return smt.False
+}
